@@ -81,6 +81,12 @@ pub const NAMES: [&str; 36] = [
     "HLAminstari8PartialHardLimit",
 ];
 
+/// The built-in arithmetics have two public constructors, `new()` and `Default::default()`;
+/// checks of the arithmetic rules draw one of them per case.
+pub fn mk<A: Default>(new: fn() -> A, use_default: bool) -> A {
+    if use_default { A::default() } else { new() }
+}
+
 /// Build the decoder a name *states*: HL prefix = horizontal layered, otherwise
 /// flooding; the remainder is the arithmetic type. Independent of the factory.
 pub fn build_direct(name: &str, h: SparseMatrix) -> Option<Box<dyn LdpcDecoder>> {
